@@ -196,3 +196,11 @@ package goja
 //@   props C17
 //@   loop 1 vars lower int, middle int, l int, ta *typedArrayObject
 //@   loop 1 invariant ta != nil && specTAWF(ta) && !ta.viewedArrayBuf.detached && l == ta.length && 0 <= lower && lower <= middle && 2*middle <= l [bounds]
+
+// ---- view frame of the byte-level copy paths: what copy() writes lies inside the view
+// (Go's own slice checks only keep it inside the buffer).
+
+//@ func (*Runtime).typedArrayProto_copyWithin
+//@   props C17
+//@   site copy#1 vars arg0 []byte, arg1 []byte, ta *typedArrayObject, data []byte
+//@   site copy#1 requires samearray(arg0, data) && sliceoff(arg0, data) >= specScale(ta.offset, ta.elemSize) && sliceoff(arg0, data) + min(len(arg0), len(arg1)) <= specScale(ta.offset+ta.length, ta.elemSize) [destination-inside-view]
